@@ -11,12 +11,14 @@ import (
 	"crypto/sha256"
 	"encoding/binary"
 	"encoding/hex"
+	"encoding/json"
 	"errors"
 	"fmt"
 	"hash/crc32"
 	"io"
 	"math"
 	"os"
+	"os/exec"
 	"path/filepath"
 	"reflect"
 	"runtime"
@@ -219,6 +221,7 @@ type segH struct {
 }
 
 type Env struct {
+	keybuf         []byte // ONE caller-side key buffer reused for every Contains / PostingsList key (the API borrows keys)
 	statObjs       map[int]segment.CollectionStats
 	tr             *Trace
 	sc             *Scenario
@@ -436,6 +439,8 @@ func (e *Env) Do(op *Op) {
 	switch op.Op {
 	case "build":
 		e.doBuild(op)
+	case "build_fresh":
+		e.doBuildFresh(op)
 	case "merge":
 		e.doMerge(op)
 	case "persist":
@@ -611,6 +616,84 @@ func (e *Env) doBuild(op *Op) {
 	}
 	e.emit(M{"ev": "build", "seg": op.Seg, "batch": e.batchBase + op.Batch, "mode": int(mode), "public": op.Mode == 0,
 		"impl": impl.Name, "cold": op.Cold, "pooled": pooled, "norm": e.sc.NormKind, "res": res})
+}
+
+// childBuildSpec is what a fresh executor process needs to build one batch after an optional first build.
+type childBuildSpec struct {
+	First    *Batch   `json:"first,omitempty"`
+	Target   Batch    `json:"target"`
+	Mode     uint32   `json:"mode"`
+	Norm     string   `json:"norm"`
+	Universe []string `json:"universe"`
+}
+
+// doBuildFresh builds op.Batch in a NEW process whose only earlier activity is (optionally) one build of batch
+// op.N: process-wide state (package-level encoders, pools, caches) starts from scratch there. The bytes must be
+// the ones every other build of the batch in this scenario produced (C14).
+func (e *Env) doBuildFresh(op *Op) {
+	spec := childBuildSpec{Target: e.sc.Batches[op.Batch], Mode: op.Mode, Norm: e.sc.NormKind, Universe: e.sc.Universe}
+	if op.N >= 0 && op.N < len(e.sc.Batches) {
+		spec.First = &e.sc.Batches[op.N]
+	}
+	res := M{"kind": "err", "msg": "child process failed"}
+	path := filepath.Join(e.workdir, fmt.Sprintf("child-%d-%d.json", os.Getpid(), op.Seg))
+	if data, err := json.Marshal(spec); err == nil && os.WriteFile(path, data, 0o600) == nil {
+		exe, _ := os.Executable()
+		out, err := exec.Command(exe, "childbuild", path).Output()
+		os.Remove(path)
+		var r M
+		if err == nil && json.Unmarshal(out, &r) == nil {
+			res = r
+		} else if err != nil {
+			res["msg"] = fmt.Sprintf("child process failed: %v", err)
+		}
+	}
+	mode := op.Mode
+	if mode == 0 {
+		mode = 1025
+	}
+	e.emit(M{"ev": "build", "seg": op.Seg, "batch": e.batchBase + op.Batch, "mode": int(mode), "public": op.Mode == 0,
+		"impl": "cur", "cold": true, "pooled": false, "fresh": true, "norm": e.sc.NormKind, "res": res})
+}
+
+// cmdChildBuild is the body of the fresh process.
+func cmdChildBuild(path string) {
+	data, err := os.ReadFile(path)
+	if err != nil {
+		fatal(err)
+	}
+	var spec childBuildSpec
+	if err := json.Unmarshal(data, &spec); err != nil {
+		fatal(err)
+	}
+	norm := normFunc(spec.Norm, spec.Universe)
+	build := func(b Batch) (segment.Segment, uint64, error) {
+		b = b.Norm()
+		if spec.Mode == 0 {
+			return implCur.New(b.Documents(), norm)
+		}
+		return implCur.NewMode(b.Documents(), norm, spec.Mode)
+	}
+	if spec.First != nil {
+		build(*spec.First)
+	}
+	res := M{"kind": "ok"}
+	seg, size, err := build(spec.Target)
+	if err != nil {
+		res = M{"kind": "err", "msg": err.Error()}
+	} else {
+		var buf bytes.Buffer
+		n, werr := seg.WriteTo(&buf, nil)
+		res["count"] = clampInt(seg.Count())
+		res["size"] = clampInt(size)
+		if werr == nil {
+			res["digest"], res["wlen"], res["wn"], res["datalen"] = digest(buf.Bytes()), buf.Len(), clampSigned(int(n)), buf.Len()-44
+		} else {
+			res["digest"], res["wlen"], res["wn"], res["datalen"] = "writeto-failed", -1, -1, -1
+		}
+	}
+	out, _ := json.Marshal(res)
+	os.Stdout.Write(out)
 }
 
 func (e *Env) doMerge(op *Op) {
@@ -953,6 +1036,20 @@ func (e *Env) doDict(op *Op) {
 		"aut": autEv(op.Aut), "reuse_dict": op.ReuseD, "nocount": op.NoCount, "res": res})
 }
 
+// key copies the term into the environment's reused key buffer: successive lookups hand the library slices over
+// the same backing array with different contents, as a caller recycling its buffer does
+func (e *Env) key(t Bytes) []byte {
+	raw := t.Raw()
+	if cap(e.keybuf) < 64 {
+		e.keybuf = make([]byte, 0, 64)
+	}
+	if len(raw) > cap(e.keybuf) {
+		return raw
+	}
+	e.keybuf = append(e.keybuf[:0], raw...)
+	return e.keybuf
+}
+
 func (e *Env) doContains(op *Op) {
 	h := e.seg(op.Seg)
 	var ok bool
@@ -963,7 +1060,7 @@ func (e *Env) doContains(op *Op) {
 		if err != nil {
 			return
 		}
-		ok, err = d.Contains(op.Term.Raw())
+		ok, err = d.Contains(e.key(op.Term))
 	})
 	res := resKind(class, err)
 	if res["kind"] == "ok" {
@@ -1001,7 +1098,7 @@ func (e *Env) doPlOpen(op *Op) int {
 		if err != nil {
 			return
 		}
-		pl, err = d.PostingsList(op.Term.Raw(), except, pre)
+		pl, err = d.PostingsList(e.key(op.Term), except, pre)
 	})
 	res := resKind(class, err)
 	id := 0
@@ -1230,12 +1327,15 @@ func (e *Env) doStored(op *Op) {
 				// re-entrancy: a read from inside the callback, before the value is copied
 				nestedDone = true
 				sub := *e
+				sub.keybuf = nil
 				sub.inline = true
 				sub.Do(op.Nested)
 			}
 			for k := range op.Nest {
 				if op.Nest[k].AtCb == len(vals)+1 {
 					sub := *e
+					sub.keybuf = nil
+					sub.keybuf = nil
 					sub.inline = true
 					sub.Do(&op.Nest[k])
 				}
@@ -1746,7 +1846,7 @@ func (e *Env) doMergeFail(op *Op) {
 		}
 		drops = append(drops, e.bitmapOf(d))
 	}
-	w := &faultWriter{limit: op.N, closeAt: -1}
+	w := &faultWriter{once: -1, limit: op.N, closeAt: -1}
 	ch := make(chan struct{})
 	if op.N < 0 {
 		w.limit = -1
@@ -1766,7 +1866,7 @@ func (e *Env) doMergeFail(op *Op) {
 
 func (e *Env) doPersistFail(op *Op) {
 	h := e.seg(op.Seg)
-	w := &faultWriter{limit: op.N, closeAt: -1}
+	w := &faultWriter{once: -1, limit: op.N, closeAt: -1}
 	e.call(func() { h.seg.WriteTo(w, nil) })
 	e.emit(M{"ev": "skip", "op": "persist_fail"})
 }
